@@ -249,6 +249,9 @@ class Gen:
             # constructed: H >= q, k fixed, d chosen so that k - (s0 + 2^l) d mod q = c is below H - q (F10 class),
             # and d chosen so that s1 = 0
             self.constructed(cv, add)
+            self.nonce_family(cv, add)
+            self.priv_sweep(cv, add, hs, tapes)
+            self.inplace(cv, add, tapes)
             # error order of sign
             H = hs[5]
             add("sign %d %s %s %s %s" % (ci, hx(OID_BAD[3]), hx(H), hx(cv.n2b(0)), "-"), kind="signbad", cv=cv, expect=BAD_OID)
@@ -302,6 +305,76 @@ class Gen:
         out.append(("bitflip", flip(Q, self.rng.randrange(16 * no))))
         return out
 
+    # ---- directed inputs for the rejection loop of alg. 6.3.3 (bignSign2, bignIdSign2)
+    def nonce_family(self, cv, add):
+        """The harness knows d, hence theta = belt-hash(oid || d || t), hence it can choose the FIRST wide-block output
+        k1 = E_theta(H) by taking H = D_theta(k1) (library's beltWBLStepD through the helper op `wbld`).
+        Targets around every boundary of the exit test `0 < k < q`: accepted (1, q-1, random) and rejected
+        (0, q, q+1, in [q,p), p-1, p, p+1, 2^2l-1: the loop must go on to E_theta(k1)).  A second iterate that is ALSO
+        out of range cannot be constructed (k2 = E(k1) is determined by k1; out of range with probability ~2^-l)."""
+        ci, no, q, p, W = cv.ci, cv.no, cv.q, cv.p, cv.W
+        targets = [("0", 0), ("1", 1), ("q-1", q - 1), ("q", q), ("q+1", q + 1), ("[q,p)", self.rng.randrange(q, p)), ("p-1", p - 1),
+                   ("p", p), ("p+1", p + 1), ("max", W - 1), ("in-range", self.rscalar(cv))]
+        tvals = [("N", b""), ("-", b""), (None, self.rb(self.rng.choice([1, 16, 33])))]
+        plan = []
+        for i, (lab, k1) in enumerate(targets):
+            for j, (ttok, tb) in enumerate(tvals):
+                if self.thorough or ci == 0 or (i + j) % 3 == 0:
+                    plan.append((lab, k1, hx(tb) if ttok is None else ttok, tb))
+        oid = OID_HBELT
+        d = self.rscalar(cv)
+        e = self.rscalar(cv)
+        Q = cv.pub(d)
+        idH = self.rb(no)
+        for who, key in (("sign2", d), ("idsign2", e)):
+            th = self.run_c(["hash " + hx(oid + cv.n2b(key) + tb) for _, _, _, tb in plan])
+            Hs = self.run_c(["wbld %s %s" % (t_, hx(cv.n2b(k1))) for (_, k1, _, _), t_ in zip(plan, th)])
+            for (lab, k1, ttok, tb), theta, H in zip(plan, th, Hs):
+                H = unh(H)
+                if who == "sign2":
+                    add("sign2 %d %s %s %s %s" % (ci, hx(oid), hx(H), hx(cv.n2b(d)), ttok), kind="sign2", cv=cv, d=d, Q=Q, H=H, oid=oid,
+                        directed=True, k1=k1, theta=theta, lab="nonce:" + lab)
+                else:
+                    add("idsign2 %d %s %s %s %s %s" % (ci, hx(oid), hx(idH), hx(H), hx(cv.n2b(e)), ttok), kind="idsign2-directed", cv=cv,
+                        d=e, idH=idH, H=H, oid=oid, k1=k1, theta=theta, lab="nonce:" + lab)
+                self.count("%s:first-iterate=%s" % (who, lab))
+
+    # ---- every function that takes a private key x the boundary values of the range check
+    def priv_sweep(self, cv, add, hs, tapes):
+        ci, no, q, W = cv.ci, cv.no, cv.q, cv.W
+        d0, Q0 = cv.keys[2]
+        H = hs[5]
+        tape = tapes[0][1]
+        idH = hs[6]
+        for lab, d in [("0", 0), ("1", 1), ("q-1", q - 1), ("q", q), ("q+1", q + 1), ("max", W - 1)]:
+            ok = 0 < d < q
+            exp = OK if ok else BAD_PRIVKEY
+            db = hx(cv.n2b(d))
+            add("pcalc %d %s" % (ci, db), kind="pcalc", cv=cv, d=d)
+            add("kval %d %s %s" % (ci, db, hx(cv.pub(d) if ok else Q0)), kind="privsweep", cv=cv, expect=exp)
+            add("dh %d %s %s %d" % (ci, db, hx(Q0), no), kind="privsweep", cv=cv, expect=exp)
+            add("sign %d %s %s %s %s" % (ci, hx(OID_HBELT), hx(H), db, hx(tape)), kind="privsweep", cv=cv, expect=exp)
+            add("sign2 %d %s %s %s N" % (ci, hx(OID_HBELT), hx(H), db), kind="privsweep", cv=cv, expect=exp)
+            add("sign2 %d %s %s %s %s" % (ci, hx(OID_HBELT), hx(H), db, hx(self.rb(8))), kind="privsweep", cv=cv, expect=exp)
+            # identity private key e = (s1 + H) mod q: 0 is a legal value, only e >= q is rejected
+            expi = OK if d < q else BAD_PRIVKEY
+            add("idsign %d %s %s %s %s %s" % (ci, hx(OID_HBELT), hx(idH), hx(H), db, hx(tape)), kind="privsweep", cv=cv, expect=expi)
+            add("idsign2 %d %s %s %s %s N" % (ci, hx(OID_HBELT), hx(idH), hx(H), db), kind="privsweep", cv=cv, expect=expi)
+            self.count("privkey-sweep:" + lab, 8)
+
+    # ---- key transport with key and header placed inside the token buffer
+    def inplace(self, cv, add, tapes):
+        ci, no = cv.ci, cv.no
+        for mode in range(5):
+            for hk in (("hdr",) if (ci and not self.thorough) else ("hdr", "N")):
+                d, Q = cv.keys[mode % len(cv.keys)]
+                key = self.rb(self.rng.choice([16, 17, 32, 40]))
+                hdr = "N" if hk == "N" else hx(self.rb(16))
+                tape = hx(tapes[mode % len(tapes)][1])
+                add("wrap %d %s %s %s %s" % (ci, hx(key), hdr, hx(Q), tape), kind="wrap-ref", cv=cv)
+                add("wrapip %d %s %s %s %s %d" % (ci, hx(key), hdr, hx(Q), tape, mode), kind="wrapip", cv=cv, d=d, Q=Q, key=key, hdr=hdr)
+                self.count("wrap:in-place mode %d" % mode)
+
     def constructed(self, cv, add):
         ci, no, q, l = cv.ci, cv.no, cv.q, cv.l
         cases = []
@@ -349,6 +422,14 @@ class Gen:
             if k == "kgen" and w[0] == "0":
                 kp = unh(w[1])
                 add("kval %d %s %s" % (cv.ci, hx(kp[:cv.no]), hx(kp[cv.no:])), kind="kval-gen", cv=cv, expect=OK)
+            elif k == "sign2" and m.get("directed") and w[0] == "0":
+                add("vfy %d %s %s %s %s" % (cv.ci, hx(m["oid"]), hx(m["H"]), w[1], hx(m["Q"])), kind="vfy", cv=cv, oid=m["oid"], H=m["H"],
+                    sig=unh(w[1]), pub=m["Q"], lab="genuine")
+            elif k == "wrapip" and w[0] == "0":
+                tok = unh(w[1])
+                for opn in ("unwrap", "unwrapip"):
+                    add("%s %d %s %s %s" % (opn, cv.ci, w[1], m["hdr"], hx(cv.n2b(m["d"]))), kind="unwrap", cv=cv, lab="genuine", key=m["key"],
+                        tok=tok, orig=tok, hdr=m["hdr"], hdr0=m["hdr"], d=m["d"], d0=m["d"])
             elif k in ("sign", "sign2") and w[0] == "0":
                 sig = unh(w[1])
                 n = nsig[cv.ci] = nsig.get(cv.ci, 0) + 1
@@ -433,6 +514,12 @@ class Gen:
         u(tok, hdr, (d % (q - 1)) + 1, "wrong-privkey")
         u(tok, hdr, 0, "privkey=0")
         u(tok, hdr, q, "privkey=q")
+        u(tok, hdr, q + 1, "privkey=q+1")
+        u(tok, hdr, cv.W - 1, "privkey=max")
+        if d != 1:
+            u(tok, hdr, 1, "privkey=1")
+        if d != q - 1:
+            u(tok, hdr, q - 1, "privkey=q-1")
         for cut in (1, 16, len(tok) - 31 - no, len(tok) - no + 1):
             if 0 < cut <= len(tok):
                 u(tok[:-cut], hdr, d, "truncated")
@@ -663,6 +750,16 @@ class Search:
         s1 = (k - int.from_bytes(m["H"], "little") - (s0 + (1 << l)) * m["d"]) % q
         return s0b + cv.n2b(s1)
 
+    def nonce_633(self, cv, m):
+        """alg. 6.3.3: k <- H; repeat k <- E_theta(k) until k in {1..q-1}; the first iterate is known by construction
+        (H = D_theta(k1)), further iterates come from the library's belt-WBL (helper op `wble`)"""
+        k = m["k1"]
+        for _ in range(64):
+            if 0 < k < cv.q:
+                return k
+            k = int.from_bytes(unh(self.run_c(["wble %s %s" % (m["theta"], hx(cv.n2b(k)))])[0]), "little")
+        raise RuntimeError("nonce loop: 64 iterates out of range")
+
     def first_nonce(self, cv, tape):
         no = cv.no
         for i in range(65):
@@ -689,6 +786,7 @@ class Search:
     def stage(self, ops, meta, out, limit_vfy):
         nv = 0
         dh = {}
+        inplace = {}
         for op, m, o in zip(ops, meta, out):
             w = o.split()
             k, cv = m.get("kind"), m.get("cv")
@@ -721,6 +819,25 @@ class Search:
                 want = "0 %s %d" % (hx(self.expect_sig(cv, m, kk)), used)
                 if o != want:
                     self.report("sign:" + m.get("lab", "value"), op, o, want, "signature differs from the value defined by alg. 7.1.3")
+            elif k == "sign2" and m.get("directed"):
+                kk = self.nonce_633(cv, m)
+                want = "0 " + hx(self.expect_sig(cv, m, kk))
+                if o != want:
+                    self.report("sign2:" + m["lab"], op, o, want, "bignSign2: the nonce is not the first wide-block iterate in {1..q-1} (alg. 6.3.3)")
+            elif k == "idsign2-directed":
+                kk = self.nonce_633(cv, m)
+                no, q, l = cv.no, cv.q, cv.l
+                V = cv.mul(kk, cv.G)
+                s0b = self.hashf(m["oid"] + cv.n2b(V[0]) + m["idH"] + m["H"])[: no // 2]
+                s1 = (kk - int.from_bytes(m["H"], "little") - (int.from_bytes(s0b, "little") + (1 << l)) * m["d"]) % q
+                want = "0 " + hx(s0b + cv.n2b(s1))
+                if o != want:
+                    self.report("idsign2:" + m["lab"], op, o, want, "bignIdSign2: the nonce is not the first wide-block iterate in {1..q-1} (alg. 6.3.3)")
+            elif k in ("wrap-ref", "wrapip"):
+                key = tuple(op.split()[1:6])
+                if key in inplace and inplace[key] != o:
+                    self.report("wrap:in-place", op, o, inplace[key], "bignKeyWrap with key / header inside the token buffer differs from the call on disjoint buffers")
+                inplace.setdefault(key, o)
             elif k in ("vfy",) and nv < limit_vfy:
                 nv += 1
                 want = py_verify(cv, self.hashf, m["oid"], m["H"], m["sig"], m["pub"])
@@ -729,6 +846,8 @@ class Search:
                                 "bignVerify disagrees with the standard's equations (genuine signature rejected or altered input accepted)")
             elif k == "unwrap":
                 acc = self.unwrap_expect(cv, m)
+                if not (0 < m["d"] < cv.q) and len(m["tok"]) >= 32 + cv.no and int(w[0]) != BAD_PRIVKEY:
+                    self.report("unwrap:privkey-range", op, o, str(BAD_PRIVKEY), "bignKeyUnwrap: a private key outside {1..q-1} must give ERR_BAD_PRIVKEY")
                 if acc and o != "0 " + hx(m["key"]):
                     self.report("unwrap:" + m["lab"], op, o, "0 " + hx(m["key"]), "Unwrap(Wrap(key)) != key")
                 elif not acc and w[0] == "0":
@@ -948,7 +1067,8 @@ def c19_stream():
             for o, m in zip(ops, meta):
                 t = o.split()
                 ci = int(t[1]) if len(t) > 1 and t[1] in ("0", "1", "2") else 0
-                key = (t[0], ci, m.get("lab", m.get("kind")))
+                lab = str(m.get("lab", m.get("kind")))
+                key = (t[0], ci, "nonce" if lab.startswith("nonce:") else lab)
                 if key not in seen or rng.random() < fr[ci]:
                     ko.append(o)
                     km.append(m)
